@@ -82,6 +82,17 @@ def rule_ownership(ctx: Ctx) -> None:
                 ctx.violate("C13-ownership", fq.split(".", 2)[-1], f"self{path}", f"the loaded dataset (self.ground_truth_frames) is modified: {m.how} at line {m.line}", fi=f2)
         n += 1
         ctx.ok("C13-ownership", fq.split(".", 2)[-1], "dataset-untouched")
+    # a scene-score query reads the manager; it changes nothing on it (in particular it neither re-orders nor shortens the history add_frame_result
+    # takes the tracking predecessor from)
+    fs = ctx.func(MGR + "get_scene_result")
+    for (p, path), m in ef.of(fs).mutates.items():
+        if p == "self":
+            ctx.violate("C13-ownership", "PerceptionEvaluationManager.get_scene_result", f"self{path}",
+                        f"the scene-score query modifies the manager's state self{path} ({m.how} at line {m.line}{' via ' + m.via.split('.', 1)[-1] if m.via else ''}); a later add_frame_result "
+                        "(tracking predecessor = self.frame_results[-1]) and a later scene query would then depend on whether a query was made in between", fi=fs,
+                        expected="get_scene_result mutates nothing reachable from self", found=f"self{path}: {m.how}")
+    n += 1
+    ctx.ok("C13-ownership", "PerceptionEvaluationManager.get_scene_result", "query-is-pure")
     # manager state written by add_frame_result: only the history list
     fa = ctx.func(MGR + "add_frame_result")
     for (p, path), m in ef.of(fa).mutates.items():
@@ -120,6 +131,12 @@ def rule_history(ctx: Ctx) -> None:
         uses = [strip_v(e.text) for e in p.effects if e.kind in ("call", "ccall") and "self.frame_results" in strip_v(e.text) and e.name not in ("evaluate_frame", "append", "len")]
         ctx.check(not uses, "C13-history", "add_frame_result", f"no-other-use:{int(bool(has))}", f"the history also flows into {uses[:2]}", fi=fa)
         ap = [a for a in appends(p) if S(a.recv) == "self.frame_results"]
+        # the history registers a frame only after it has been evaluated: an exception inside evaluate_frame must not leave a half-evaluated frame behind
+        idx = {id(e): i for i, e in enumerate(p.effects)}
+        if len(ap) == 1:
+            ctx.check(idx[id(ap[0])] > idx[id(ev[0])], "C13-history", "add_frame_result", f"append-after-evaluate:{int(bool(has))}",
+                      "the new frame result is appended to self.frame_results BEFORE evaluate_frame has returned: when the evaluation raises, a half-evaluated frame stays in the history, is pooled "
+                      "by get_scene_result and becomes the tracking predecessor of the next frame", fi=fa, expected="result.evaluate_frame(...); self.frame_results.append(result)", found="append before evaluate_frame")
         ctx.check(len(ap) == 1 and (S(ap[0].args[0]) == "result" or S(ap[0].args[0]).startswith("PerceptionFrameResult(")), "C13-history", "add_frame_result", f"append:{int(bool(has))}", "the new frame result is not appended exactly once to the history", fi=fa)
         # the result is built from this frame's inputs only
         mk = [e for e in p.effects if e.kind == "call" and e.name == "PerceptionFrameResult"]
